@@ -22,7 +22,7 @@ pub fn check() -> Check {
 }
 
 fn plan(tier: Tier) -> Vec<Workload> {
-    vec![Workload::new("programs", tier.pick(20_000, 500_000))]
+    vec![Workload::new("programs", tier.pick(80_000, 1_500_000))]
 }
 
 fn strip(run: &RealRun) -> Vec<(Vec<Out>, String, String, bool)> {
